@@ -37,9 +37,10 @@ import (
 
 // C10 harness.  Four kinds of cases, each calling the REAL code:
 //   budget  -> calculateBESuppressCPU           (plus a paired call with one non-BE consumption bumped)
-//   policy  -> calculateBESuppressCPUSetPolicy
-//   cpuset  -> adjustByCPUSet through a mock statesinformer and a temp cgroup root
-//   quota   -> adjustByCfsQuota through a temp cgroup root
+//   policy  -> calculateBESuppressCPUSetPolicy  (TestVerifC10Exhaustive: every small topology / pool / k, thorough tier)
+//   cpuset  -> adjustByCPUSet (kubelet policy none and static) and calcBECPUSet through a mock statesinformer and a temp cgroup root
+//   quota   -> adjustByCfsQuota through a temp cgroup root (cgroup v1 and v2 file formats)
+// verif_c10_round_test.go adds whole suppressBECPU rounds (TestVerifC10Round).
 // Ops are the integer projection of the inputs, observations the canonical outputs.  The oracle
 // below re-evaluates the property statement from scratch with integer arithmetic only.
 
@@ -245,8 +246,9 @@ type c10App struct {
 
 type c10BudgetIn struct {
 	capMilli, allocMilli int64
-	annoKind             int // 0 none, 1 resources.cpu, 2 reservedCPUs, 3 malformed json
-	annoMilli            int64
+	annoKind             int // 0 none, 1 resources.cpu, 2 resources.cpu + reservedCPUs, 3 malformed json, 4 resources.cpu + unparsable reservedCPUs, 5 resources without cpu
+	annoMilli            int64 // resources.cpu of the annotation
+	annoCpus             int64 // number of cpus in reservedCPUs
 	thr                  int64
 	hasMin               bool
 	minPct               int64
@@ -270,9 +272,15 @@ func c10GenBudget(r *vRand, j int) c10BudgetIn {
 		in.annoMilli = r.Pick([]int64{0, 300, 1000, 1001, 1500, 2003, 4000, 2500})
 	case 1:
 		in.annoKind = 2
-		in.annoMilli = int64(r.Range(1, 4)) * 1000
+		in.annoMilli = r.Pick([]int64{100, 100, 5000})
+		in.annoCpus = int64(r.Range(1, 4))
 	case 2:
 		in.annoKind = 3
+	case 3:
+		in.annoKind = 4
+		in.annoMilli = r.Pick([]int64{1000, 2500, 4000})
+	case 4:
+		in.annoKind = 5
 	}
 	in.thr = 65
 	if r.Chance(1, 2) {
@@ -327,8 +335,19 @@ func c10GenBudget(r *vRand, j int) c10BudgetIn {
 
 func c10Milli8(x int64) int64 { return x * 125 }
 
-// c10RunBudget builds the objects, calls the real code, emits op+obs and returns the value (ok=false on panic).
-func c10RunBudget(h *vHarness, in c10BudgetIn) (int64, bool) {
+// c10BudgetObjs: the real objects of a budget input and its op tokens.
+type c10BudgetObjs struct {
+	node       *corev1.Node
+	metas      []*statesinformer.PodMeta
+	podMetrics map[string]float64
+	apps       []slov1alpha1.HostApplicationSpec
+	appMetrics map[string]float64
+	minP       *int64
+	annoEff    int64
+	opTokens   string // everything after the op kind
+}
+
+func c10BuildBudget(h *vHarness, in c10BudgetIn) *c10BudgetObjs {
 	node := &corev1.Node{ObjectMeta: metav1.ObjectMeta{Name: "n"}, Status: corev1.NodeStatus{
 		Capacity:    corev1.ResourceList{corev1.ResourceCPU: *resource.NewMilliQuantity(in.capMilli, resource.DecimalSI), corev1.ResourceMemory: resource.MustParse("64Gi")},
 		Allocatable: corev1.ResourceList{corev1.ResourceCPU: *resource.NewMilliQuantity(in.allocMilli, resource.DecimalSI), corev1.ResourceMemory: resource.MustParse("60Gi")},
@@ -337,14 +356,24 @@ func c10RunBudget(h *vHarness, in c10BudgetIn) (int64, bool) {
 	case 1:
 		node.Annotations = map[string]string{apiext.AnnotationNodeReservation: fmt.Sprintf(`{"resources":{"cpu":"%dm","memory":"1Gi"}}`, in.annoMilli)}
 	case 2:
-		node.Annotations = map[string]string{apiext.AnnotationNodeReservation: fmt.Sprintf(`{"resources":{"cpu":"100m"},"reservedCPUs":"0-%d"}`, in.annoMilli/1000-1)}
+		node.Annotations = map[string]string{apiext.AnnotationNodeReservation: fmt.Sprintf(`{"resources":{"cpu":"%dm"},"reservedCPUs":"0-%d"}`, in.annoMilli, in.annoCpus-1)}
+	case 4:
+		node.Annotations = map[string]string{apiext.AnnotationNodeReservation: fmt.Sprintf(`{"resources":{"cpu":"%dm"},"reservedCPUs":"0-x"}`, in.annoMilli)}
+	case 5:
+		node.Annotations = map[string]string{apiext.AnnotationNodeReservation: `{"resources":{"memory":"2Gi"}}`}
 	case 3:
 		node.Annotations = map[string]string{apiext.AnnotationNodeReservation: `{"resources":`}
 	}
-	annoEff := in.annoMilli
-	if in.annoKind == 0 || in.annoKind == 3 {
-		annoEff = 0
+	// what the annotation reserves, by the API's documentation: resources.cpu, overridden by the size of reservedCPUs;
+	// nothing when the annotation is absent, malformed, carries an unparsable cpuset or no cpu amount
+	annoEff := int64(0)
+	switch in.annoKind {
+	case 1:
+		annoEff = in.annoMilli
+	case 2:
+		annoEff = in.annoCpus * 1000
 	}
+	h.Tag(fmt.Sprintf("budget:anno-kind-%d", in.annoKind))
 	podMetrics := map[string]float64{}
 	var metas []*statesinformer.PodMeta
 	var podTok []int64
@@ -413,12 +442,19 @@ func c10RunBudget(h *vHarness, in c10BudgetIn) (int64, bool) {
 		m := in.minPct
 		minP = &m
 	}
-	h.Op("%s", strings.Join(strings.Fields(fmt.Sprintf("budget %d %d %d %d %d %d %d %d %s %d %s", in.capMilli, in.allocMilli, annoEff, in.thr,
-		vB(in.hasMin), in.minPct, c10Milli8(in.node8), np, vInts(podTok), na, vInts(appTok))), " "))
+	return &c10BudgetObjs{node: node, metas: metas, podMetrics: podMetrics, apps: apps, appMetrics: appMetrics, minP: minP, annoEff: annoEff,
+		opTokens: strings.Join(strings.Fields(fmt.Sprintf("%d %d %d %d %d %d %d %d %d %d %s %d %s", in.capMilli, in.allocMilli, in.annoKind, in.annoMilli, in.annoCpus, in.thr,
+			vB(in.hasMin), in.minPct, c10Milli8(in.node8), np, vInts(podTok), na, vInts(appTok))), " ")}
+}
+
+// c10RunBudget builds the objects, calls the real code, emits op+obs and returns the value (ok=false on panic).
+func c10RunBudget(h *vHarness, in c10BudgetIn) (int64, bool) {
+	o := c10BuildBudget(h, in)
+	h.Op("budget %s", o.opTokens)
 	var got int64
 	s := &CPUSuppress{}
 	if h.Guard(func() {
-		q := s.calculateBESuppressCPU(node, float64(in.node8)/8, podMetrics, metas, apps, appMetrics, in.thr, minP)
+		q := s.calculateBESuppressCPU(o.node, float64(in.node8)/8, o.podMetrics, o.metas, o.apps, o.appMetrics, in.thr, o.minP)
 		got = q.MilliValue()
 	}) {
 		h.Obs("panic")
@@ -426,9 +462,34 @@ func c10RunBudget(h *vHarness, in c10BudgetIn) (int64, bool) {
 		return 0, false
 	}
 	h.Obs("budget %d", got)
+	want, resBinding, podsNonBE, appsNonBE, sys := c10BudgetStatement(h, in, o.annoEff)
+	floor := func(x int64) int64 { return c10BudgetFloor(in, x) }
+	if !(got == floor(want) || (resBinding && got == floor(want+1))) {
+		h.Fail("C10:budget-formula", "budget %d, statement gives %d (cap %d thr %d nonBE pods %d apps %d system %d)",
+			got, floor(want), in.capMilli, in.thr, podsNonBE, appsNonBE, sys)
+	}
+	if resBinding {
+		h.Tag("budget:reservation-binds")
+	} else {
+		h.Tag("budget:system-binds")
+	}
+	if in.hasMin && got == in.capMilli*in.minPct/100 {
+		h.Tag("budget:floored")
+	}
+	return got, true
+}
 
-	// ---- oracle: the statement, integer arithmetic in milli-CPU
-	var podsAll, podsNonBE, appsAll, appsNonBE int64
+func c10BudgetFloor(in c10BudgetIn, x int64) int64 {
+	if in.hasMin && x < in.capMilli*in.minPct/100 {
+		return in.capMilli * in.minPct / 100
+	}
+	return x
+}
+
+// c10BudgetStatement: the statement's budget before the floor, integer arithmetic in milli-CPU; resBinding = the system
+// term is the node reservation (whose float round trip may lose one milli-CPU, so want+1 is admissible too).
+func c10BudgetStatement(h *vHarness, in c10BudgetIn, annoEff int64) (want int64, resBinding bool, podsNonBE, appsNonBE, sys int64) {
+	var podsAll, appsAll int64
 	for _, p := range in.pods {
 		if !p.hasMetric {
 			continue
@@ -454,39 +515,21 @@ func c10RunBudget(h *vHarness, in c10BudgetIn) (int64, bool) {
 	if annoEff > reserved {
 		reserved = annoEff
 	}
-	sys := c10Milli8(in.node8) - podsAll - appsAll
+	sys = c10Milli8(in.node8) - podsAll - appsAll
 	if sys < 0 {
 		sys = 0
 	}
-	resBinding := sys < reserved
+	resBinding = sys < reserved
 	if resBinding {
 		sys = reserved
 	}
-	floor := func(x int64) int64 {
-		if in.hasMin && x < in.capMilli*in.minPct/100 {
-			return in.capMilli * in.minPct / 100
-		}
-		return x
-	}
-	want := in.capMilli*in.thr/100 - podsNonBE - appsNonBE - sys
+	want = in.capMilli*in.thr/100 - podsNonBE - appsNonBE - sys
 	// float64(reserved)/1000*1000 may truncate one milli-CPU below the reservation (e.g. 1001 -> 1000): accepted
 	rt := int64(float64(reserved) / 1000 * 1000)
 	if rt != reserved && rt != reserved-1 {
 		h.Fail("C10:float-assumption", "int64(float64(%d)/1000*1000) = %d", reserved, rt)
 	}
-	if !(got == floor(want) || (resBinding && got == floor(want+1))) {
-		h.Fail("C10:budget-formula", "budget %d, statement gives %d (cap %d thr %d nonBE pods %d apps %d system %d)",
-			got, floor(want), in.capMilli, in.thr, podsNonBE, appsNonBE, sys)
-	}
-	if resBinding {
-		h.Tag("budget:reservation-binds")
-	} else {
-		h.Tag("budget:system-binds")
-	}
-	if in.hasMin && got == in.capMilli*in.minPct/100 {
-		h.Tag("budget:floored")
-	}
-	return got, true
+	return
 }
 
 // ---------------------------------------------------------------- the test
@@ -519,11 +562,16 @@ func TestVerifC10(t *testing.T) {
 		h.End()
 	}
 	h.Close("case kind by idx%4: budget (node 2-64 CPUs, reservations by kubelet/annotation/reservedCPUs/malformed, 0-6 pods with QoS label x kube QoS x " +
-		"metric/meta presence, 0-3 host apps, dyadic usages; re-run with one non-BE consumption bumped) | policy (generated topologies 1-64 CPUs: " +
+		"metric/meta presence, 0-3 host apps over 6 QoS values x {nil path, KubepodsBesteffort, Kubepods, empty base, CgroupRoot, KubepodsBurstable} plus a " +
+		"systematic stream enumerating all 36 (QoS, path) combinations, dyadic usages; re-run with one non-BE consumption bumped) | policy (generated topologies 1-64 CPUs: " +
 		"sockets x numa x cores x 1-4 threads, two cpu-id layouts, restarting core ids, offline cpus, shuffled lists, colliding numa ids; k in [-1,n+2]) | " +
-		"cpuset (same topologies; 0-4 pods LSE/LSR/LS/BE/none/SYSTEM with disjoint or overlapping cpusets, malformed/empty/absent annotations; reserved " +
-		"cpus none/some/all/malformed; system-QoS cpuset exclusive/shared/malformed; budget from below 2 CPUs to above the free CPUs; old BE cpuset) | " +
-		"quota (budget incl. negative/tiny, current quota -1/2000/near/far, capacity 1-96 CPUs incl. fractional). " +
+		"cpuset (same topologies; 0-5 pods LSE/LSR/LS/BE/none/SYSTEM with disjoint or overlapping cpusets, malformed/empty/absent annotations, lifecycle " +
+		"states phase unset/Running/Running+deletionTimestamp/Pending/Succeeded/Failed/Failed+deletionTimestamp, a stream of terminating or finished LSE " +
+		"pods owning a core pair; reserved cpus none/some/all/malformed; system-QoS cpuset exclusive by default/explicit/shared/malformed; topology object " +
+		"missing; kubelet policy none/static/malformed (BE root, pod and container level read back); calcBECPUSet on the same inputs; budget from below " +
+		"2 CPUs to above the free CPUs; old BE cpuset) | " +
+		"quota (budget incl. negative/tiny, current quota -1/2000/near/far, a stream with current -1 and the target inside the 1 % band, capacity 1-96 CPUs " +
+		"incl. fractional, cgroup v1 cpu.cfs_quota_us and cgroup v2 cpu.max formats). " +
 		"non-trivial = budget with >=1 metric; policy with 0<k<=n; cpuset with >=1 eligible CPU and a write; quota that is written (not bypassed); distinct by op line")
 }
 
@@ -770,7 +818,25 @@ func c10ApplyLife(pod *corev1.Pod, life int) {
 	}
 }
 
-func c10CaseCPUSet(t *testing.T, h *vHarness, r *vRand, cg *c10Cgroup, beDir string) {
+// c10CSIn: one generated input of the cpuset path (topology, pods, annotations, budget, old BE cpuset).
+type c10CSIn struct {
+	ps       []koordletutil.ProcessorInfo
+	ids      []int
+	nCPU     int
+	pods     []c10CPod
+	reserved []int // effective reserved cpus
+	sysCPUs  []int // effective system-exclusive cpus
+	sysRaw   []int // cpuset named by the system-QoS annotation, exclusive or not
+	sysKind  int
+	resKind  int
+	topoAnno map[string]string
+	topoNil  bool
+	kp       int
+	budget   int64
+	old      []int
+}
+
+func c10GenCPUSet(r *vRand) *c10CSIn {
 	ps := c10Topo(r)
 	if r.Chance(1, 50) {
 		ps = nil
@@ -879,6 +945,7 @@ func c10CaseCPUSet(t *testing.T, h *vHarness, r *vRand, cg *c10Cgroup, beDir str
 	} else if sysKind == 4 {
 		topoAnno[apiext.AnnotationNodeSystemQOSResource] = `{"cpuset":[1]}`
 	}
+	sysRaw := append([]int(nil), sysCPUs...) // the cpuset named by the annotation, exclusive or not
 	if !sysExclusive || len(sysCPUs) == 0 {
 		sysCPUs, sysExclusive = nil, false
 	}
@@ -936,13 +1003,15 @@ func c10CaseCPUSet(t *testing.T, h *vHarness, r *vRand, cg *c10Cgroup, beDir str
 		}
 	}
 	sort.Ints(old)
+	return &c10CSIn{ps: ps, ids: ids, nCPU: nCPU, pods: pods, reserved: reserved, sysCPUs: sysCPUs, sysRaw: sysRaw, sysKind: sysKind,
+		resKind: resKind, topoAnno: topoAnno, topoNil: topoNil, kp: kp, budget: budget, old: old}
+}
 
-	// ---- op line
+// envTokens: the op tokens describing everything but the budget and the old BE cpuset:
+// <n> procs* <np> pods* <resKind> <nr> res* <sysKind> <ns> sys* <topoNil> <kubeletPolicy>
+func (in *c10CSIn) envTokens(h *vHarness) []string {
+	ps, pods, reserved, sysRaw, sysKind, resKind, topoAnno, topoNil, kp := in.ps, in.pods, in.reserved, in.sysRaw, in.sysKind, in.resKind, in.topoAnno, in.topoNil, in.kp
 	var tok []string
-	tok = append(tok, "cpuset", strconv.FormatInt(budget, 10), strconv.Itoa(len(old)))
-	for _, c := range old {
-		tok = append(tok, strconv.Itoa(c))
-	}
 	tok = append(tok, strings.Fields(c10ProcTokens(ps))...)
 	tok = append(tok, strconv.Itoa(len(pods)))
 	for _, p := range pods {
@@ -959,20 +1028,38 @@ func c10CaseCPUSet(t *testing.T, h *vHarness, r *vRand, cg *c10Cgroup, beDir str
 			h.Tag(fmt.Sprintf("cpuset:lse-life-%d", p.life))
 		}
 	}
-	tok = append(tok, strconv.Itoa(len(reserved)))
+	// annotation shapes (the model decides what they protect): reservation 0 absent, 1 reservedCPUs parses, 2 unparsable
+	// cpuset string, 3 malformed JSON; system QoS 0 absent, 1 cpuset (exclusive by default), 2 cpusetExclusive=true,
+	// 3 cpusetExclusive=false, 4 malformed JSON
+	resTok := 0
+	if _, ok := topoAnno[apiext.AnnotationNodeReservation]; ok {
+		switch resKind {
+		case 3:
+			resTok = 2
+		case 4:
+			resTok = 3
+		default:
+			resTok = 1
+		}
+	}
+	tok = append(tok, strconv.Itoa(resTok), strconv.Itoa(len(reserved)))
 	for _, c := range reserved {
 		tok = append(tok, strconv.Itoa(c))
 	}
-	tok = append(tok, strconv.Itoa(len(sysCPUs)))
-	for _, c := range sysCPUs {
+	tok = append(tok, strconv.Itoa(sysKind), strconv.Itoa(len(sysRaw)))
+	for _, c := range sysRaw {
 		tok = append(tok, strconv.Itoa(c))
 	}
+	h.Tag(fmt.Sprintf("cpuset:sysqos-kind-%d", sysKind))
 	tok = append(tok, strconv.Itoa(vB(topoNil)), strconv.Itoa(kp))
-	h.Op("%s", strings.Join(tok, " "))
-	h.Tag("kind:cpuset")
-	h.Tag(fmt.Sprintf("cpuset:kubelet-policy-%d", kp))
 
-	// ---- real objects
+	h.Tag(fmt.Sprintf("cpuset:kubelet-policy-%d", kp))
+	return tok
+}
+
+// build: the real pod / topology objects of the input.
+func (in *c10CSIn) build(h *vHarness, r *vRand) ([]*statesinformer.PodMeta, *topov1alpha1.NodeResourceTopology) {
+	pods, topoAnno, topoNil := in.pods, in.topoAnno, in.topoNil
 	var metas []*statesinformer.PodMeta
 	for i, p := range pods {
 		pod := &corev1.Pod{ObjectMeta: metav1.ObjectMeta{Name: fmt.Sprintf("p%d", i), Namespace: "ns", UID: types.UID(fmt.Sprintf("u%d", i))}}
@@ -1002,6 +1089,207 @@ func c10CaseCPUSet(t *testing.T, h *vHarness, r *vRand, cg *c10Cgroup, beDir str
 	} else {
 		h.Tag("cpuset:topo-nil")
 	}
+	return metas, topo
+}
+
+// c10CSObs: what one round left behind, as the oracle needs it.
+type c10CSObs struct {
+	final        []int // the set BE containers end up with (container level under the static policy, root otherwise)
+	written      bool
+	rootSet      []int
+	rootChanged  bool
+	beset        []int
+	besetOK      bool
+	checkRecover bool
+	recoverOnly  bool // only the "no protected CPU" clauses, on a set produced by the recover path
+	childDiffers bool
+	oldLen       int
+}
+
+// c10CSOracle: the cpuset clauses of the statement, from scratch.  budgets = the budget values the statement allows
+// (one for a direct call; two when the budget is derived and the float round trip of the reservation may lose 1 milli).
+func c10CSOracle(h *vHarness, in *c10CSIn, budgets []int64, o c10CSObs) {
+	ids, nCPU, pods, reserved, sysCPUs, topoNil, kp := in.ids, in.nCPU, in.pods, in.reserved, in.sysCPUs, in.topoNil, in.kp
+	final, written, rootSet, beset, besetOK := o.final, o.written, o.rootSet, o.beset, o.besetOK
+	budget := budgets[0]
+	exist := map[int]bool{}
+	for _, c := range ids {
+		exist[c] = true
+	}
+	resSet := map[int]bool{}
+	for _, c := range reserved {
+		resSet[c] = true
+	}
+	sysSet := map[int]bool{}
+	for _, c := range sysCPUs {
+		sysSet[c] = true
+	}
+	owners := map[int]map[int]bool{} // cpu -> set of QoS classes of the pods in the list whose annotation names it (any lifecycle state)
+	for _, p := range pods {
+		if p.kind != 0 {
+			continue
+		}
+		for _, c := range p.cpus {
+			if owners[c] == nil {
+				owners[c] = map[int]bool{}
+			}
+			owners[c][p.qos] = true
+		}
+	}
+	lseExclusive := func(c int) bool { return len(owners[c]) == 1 && owners[c][c10QLSE] }
+	ambiguous := false // a CPU claimed by an LSE pod and by a pod of another class: ownership is not exclusive
+	for _, o := range owners {
+		if o[c10QLSE] && len(o) > 1 {
+			ambiguous = true
+		}
+	}
+	eligibleN := 0
+	for _, c := range ids {
+		if !resSet[c] && !sysSet[c] && !lseExclusive(c) {
+			eligibleN++
+		}
+	}
+	want := c10CeilDiv(budget, 1000)
+	if fc := int64(math.Ceil(float64(budget) / 1000)); fc != want {
+		h.Fail("C10:float-assumption", "ceil(%d/1000) float %d != %d", budget, fc, want)
+	}
+	if want < 2 {
+		want = 2
+	}
+	step := c10CeilDiv(int64(nCPU), 10)
+	if fs := int64(math.Ceil(float64(nCPU) * 0.1)); fs != step {
+		h.Fail("C10:float-assumption", "ceil(%d*0.1) float %d != %d", nCPU, fs, step)
+	}
+	if want-int64(o.oldLen) > step {
+		want = int64(o.oldLen) + step
+		h.Tag("cpuset:step-limited")
+	}
+	enough := int64(eligibleN) >= want
+	protected := func(prefix string, set []int) {
+		for _, c := range set {
+			switch {
+			case !exist[c]:
+				h.Fail("C10:"+prefix+"-unknown-cpu", "cpu %d written to the BE cpuset does not exist", c)
+			case resSet[c]:
+				h.Fail("C10:"+prefix+"-reserved-cpu", "cpu %d is reserved by the node annotation", c)
+			case sysSet[c]:
+				h.Fail("C10:"+prefix+"-system-cpu", "cpu %d is exclusive to system QoS", c)
+			case lseExclusive(c):
+				h.Fail("C10:"+prefix+"-lse-cpu", "cpu %d is exclusively owned by an LSE pod that is still in the pod list", c)
+			}
+		}
+	}
+	if o.recoverOnly {
+		protected("recover", final)
+		return
+	}
+	if len(budgets) > 1 {
+		if alt := c10WantCPUs(budgets[1], nCPU, o.oldLen); alt == int64(len(final)) && alt != want {
+			want = alt // the other admissible budget explains the count
+			enough = int64(eligibleN) >= want
+		}
+	}
+	if written {
+		h.Tag("cpuset:written")
+		if eligibleN > 0 {
+			h.Nontrivial()
+		}
+		protected("cpuset", final)
+		if int64(len(final)) > want {
+			h.Fail("C10:cpuset-over-budget", "%d cpus written, budget allows %d (budget %dm, old %d, step %d)", len(final), want, budget, o.oldLen, step)
+		}
+		if enough && !ambiguous && int64(len(final)) != want {
+			h.Fail("C10:cpuset-count", "%d eligible cpus >= %d wanted, but %d distinct cpus written", eligibleN, want, len(final))
+		}
+	} else {
+		h.Tag("cpuset:untouched")
+		// the updater skips a write whose value equals the file's current set: an unchanged file is
+		// fine iff its content already is a valid answer.  Without a topology object or with an
+		// unreadable kubelet-policy annotation the agent cannot act at all (degenerate input, tagged).
+		if topoNil || kp == 2 {
+			h.Tag("cpuset:cannot-act")
+		} else if enough && !ambiguous && eligibleN > 0 {
+			okAnswer := int64(len(final)) == want
+			for _, c := range final {
+				if !exist[c] || resSet[c] || sysSet[c] || lseExclusive(c) {
+					okAnswer = false
+				}
+			}
+			if !okAnswer {
+				h.Fail("C10:cpuset-count", "%d eligible cpus >= %d wanted, but the BE cpuset was left at %v", eligibleN, want, final)
+			} else {
+				h.Tag("cpuset:already-right")
+			}
+		}
+	}
+	// static policy: the BE root / pod dirs are rewritten by the recover path; they must not gain protected CPUs either
+	if kp == 1 && o.rootChanged {
+		h.Tag("cpuset:static-root-recovered")
+		protected("cpuset", rootSet)
+	}
+	// the recover path (calcBECPUSet) on the same inputs: no protected CPU (here ANY LSE claim protects), and
+	// it must agree with the suppress path about which CPUs BE may get
+	if besetOK {
+		inBE := map[int]bool{}
+		for _, c := range beset {
+			inBE[c] = true
+		}
+		protected("recover", beset)
+		anyLSE := func(c int) bool { return owners[c][c10QLSE] }
+		for _, c := range ids {
+			if !resSet[c] && !sysSet[c] && !anyLSE(c) && !inBE[c] {
+				h.Fail("C10:cpuset-paths-disagree", "cpu %d is eligible for the suppress path but missing from the recover path's BE cpuset %v", c, beset)
+			}
+		}
+		if written && !ambiguous {
+			for _, c := range final {
+				if !inBE[c] {
+					h.Fail("C10:cpuset-paths-disagree", "cpu %d written by adjustByCPUSet is excluded by calcBECPUSet (%v)", c, beset)
+				}
+			}
+		}
+	} else if !topoNil && o.checkRecover {
+		h.Fail("C10:cpuset-paths-disagree", "calcBECPUSet failed although a topology object exists")
+	}
+	switch {
+	case eligibleN == 0:
+		h.Tag("cpuset:none-eligible")
+	case enough:
+		h.Tag("cpuset:enough")
+	default:
+		h.Tag("cpuset:budget-above-free")
+	}
+	if ambiguous {
+		h.Tag("cpuset:overlapping-lse")
+	}
+	if written && o.childDiffers && kp != 1 {
+		h.Tag("cpuset:child-differs")
+	}
+}
+
+// c10WantCPUs: ceil(budget/1000), at least 2, at most |old| + ceil(n/10).
+func c10WantCPUs(budget int64, nCPU, oldLen int) int64 {
+	want := c10CeilDiv(budget, 1000)
+	if want < 2 {
+		want = 2
+	}
+	if step := c10CeilDiv(int64(nCPU), 10); want-int64(oldLen) > step {
+		want = int64(oldLen) + step
+	}
+	return want
+}
+
+func c10CaseCPUSet(t *testing.T, h *vHarness, r *vRand, cg *c10Cgroup, beDir string) {
+	in := c10GenCPUSet(r)
+	ps, ids, budget, old, kp := in.ps, in.ids, in.budget, in.old, in.kp
+	tok := []string{"cpuset", strconv.FormatInt(budget, 10), strconv.Itoa(len(old))}
+	for _, c := range old {
+		tok = append(tok, strconv.Itoa(c))
+	}
+	tok = append(tok, in.envTokens(h)...)
+	h.Op("%s", strings.Join(tok, " "))
+	h.Tag("kind:cpuset")
+	metas, topo := in.build(h, r)
 	info := &metriccache.NodeCPUInfo{ProcessorInfos: ps}
 	ctrl := gomock.NewController(t)
 	si := mockstatesinformer.NewMockStatesInformer(ctrl)
@@ -1076,151 +1364,8 @@ func c10CaseCPUSet(t *testing.T, h *vHarness, r *vRand, cg *c10Cgroup, beDir str
 		final, raw = contSet, contRaw
 	}
 	written := raw != oldStr
-
-	// ---- oracle (from scratch)
-	exist := map[int]bool{}
-	for _, c := range ids {
-		exist[c] = true
-	}
-	resSet := map[int]bool{}
-	for _, c := range reserved {
-		resSet[c] = true
-	}
-	sysSet := map[int]bool{}
-	for _, c := range sysCPUs {
-		sysSet[c] = true
-	}
-	owners := map[int]map[int]bool{} // cpu -> set of QoS classes of the pods in the list whose annotation names it (any lifecycle state)
-	for _, p := range pods {
-		if p.kind != 0 {
-			continue
-		}
-		for _, c := range p.cpus {
-			if owners[c] == nil {
-				owners[c] = map[int]bool{}
-			}
-			owners[c][p.qos] = true
-		}
-	}
-	lseExclusive := func(c int) bool { return len(owners[c]) == 1 && owners[c][c10QLSE] }
-	ambiguous := false // a CPU claimed by an LSE pod and by a pod of another class: ownership is not exclusive
-	for _, o := range owners {
-		if o[c10QLSE] && len(o) > 1 {
-			ambiguous = true
-		}
-	}
-	eligibleN := 0
-	for _, c := range ids {
-		if !resSet[c] && !sysSet[c] && !lseExclusive(c) {
-			eligibleN++
-		}
-	}
-	want := c10CeilDiv(budget, 1000)
-	if fc := int64(math.Ceil(float64(budget) / 1000)); fc != want {
-		h.Fail("C10:float-assumption", "ceil(%d/1000) float %d != %d", budget, fc, want)
-	}
-	if want < 2 {
-		want = 2
-	}
-	step := c10CeilDiv(int64(nCPU), 10)
-	if fs := int64(math.Ceil(float64(nCPU) * 0.1)); fs != step {
-		h.Fail("C10:float-assumption", "ceil(%d*0.1) float %d != %d", nCPU, fs, step)
-	}
-	if want-int64(len(old)) > step {
-		want = int64(len(old)) + step
-		h.Tag("cpuset:step-limited")
-	}
-	enough := int64(eligibleN) >= want
-	protected := func(prefix string, set []int) {
-		for _, c := range set {
-			switch {
-			case !exist[c]:
-				h.Fail("C10:"+prefix+"-unknown-cpu", "cpu %d written to the BE cpuset does not exist", c)
-			case resSet[c]:
-				h.Fail("C10:"+prefix+"-reserved-cpu", "cpu %d is reserved by the node annotation", c)
-			case sysSet[c]:
-				h.Fail("C10:"+prefix+"-system-cpu", "cpu %d is exclusive to system QoS", c)
-			case lseExclusive(c):
-				h.Fail("C10:"+prefix+"-lse-cpu", "cpu %d is exclusively owned by an LSE pod that is still in the pod list", c)
-			}
-		}
-	}
-	if written {
-		h.Tag("cpuset:written")
-		if eligibleN > 0 {
-			h.Nontrivial()
-		}
-		protected("cpuset", final)
-		if int64(len(final)) > want {
-			h.Fail("C10:cpuset-over-budget", "%d cpus written, budget allows %d (budget %dm, old %d, step %d)", len(final), want, budget, len(old), step)
-		}
-		if enough && !ambiguous && int64(len(final)) != want {
-			h.Fail("C10:cpuset-count", "%d eligible cpus >= %d wanted, but %d distinct cpus written", eligibleN, want, len(final))
-		}
-	} else {
-		h.Tag("cpuset:untouched")
-		// the updater skips a write whose value equals the file's current set: an unchanged file is
-		// fine iff its content already is a valid answer.  Without a topology object or with an
-		// unreadable kubelet-policy annotation the agent cannot act at all (degenerate input, tagged).
-		if topoNil || kp == 2 {
-			h.Tag("cpuset:cannot-act")
-		} else if enough && !ambiguous && eligibleN > 0 {
-			okAnswer := int64(len(final)) == want
-			for _, c := range final {
-				if !exist[c] || resSet[c] || sysSet[c] || lseExclusive(c) {
-					okAnswer = false
-				}
-			}
-			if !okAnswer {
-				h.Fail("C10:cpuset-count", "%d eligible cpus >= %d wanted, but the BE cpuset was left at %v", eligibleN, want, final)
-			} else {
-				h.Tag("cpuset:already-right")
-			}
-		}
-	}
-	// static policy: the BE root / pod dirs are rewritten by the recover path; they must not gain protected CPUs either
-	if kp == 1 && rootRaw != oldStr {
-		h.Tag("cpuset:static-root-recovered")
-		protected("cpuset", rootSet)
-	}
-	// the recover path (calcBECPUSet) on the same inputs: no protected CPU (here ANY LSE claim protects), and
-	// it must agree with the suppress path about which CPUs BE may get
-	if besetOK {
-		inBE := map[int]bool{}
-		for _, c := range beset {
-			inBE[c] = true
-		}
-		protected("recover", beset)
-		anyLSE := func(c int) bool { return owners[c][c10QLSE] }
-		for _, c := range ids {
-			if !resSet[c] && !sysSet[c] && !anyLSE(c) && !inBE[c] {
-				h.Fail("C10:cpuset-paths-disagree", "cpu %d is eligible for the suppress path but missing from the recover path's BE cpuset %v", c, beset)
-			}
-		}
-		if written && !ambiguous {
-			for _, c := range final {
-				if !inBE[c] {
-					h.Fail("C10:cpuset-paths-disagree", "cpu %d written by adjustByCPUSet is excluded by calcBECPUSet (%v)", c, beset)
-				}
-			}
-		}
-	} else if !topoNil {
-		h.Fail("C10:cpuset-paths-disagree", "calcBECPUSet failed although a topology object exists")
-	}
-	switch {
-	case eligibleN == 0:
-		h.Tag("cpuset:none-eligible")
-	case enough:
-		h.Tag("cpuset:enough")
-	default:
-		h.Tag("cpuset:budget-above-free")
-	}
-	if ambiguous {
-		h.Tag("cpuset:overlapping-lse")
-	}
-	if written && (podRaw != raw || contRaw != raw) && kp != 1 {
-		h.Tag("cpuset:child-differs")
-	}
+	c10CSOracle(h, in, []int64{budget}, c10CSObs{final: final, written: written, rootSet: rootSet, rootChanged: rootRaw != oldStr,
+		beset: beset, besetOK: besetOK, checkRecover: true, childDiffers: podRaw != raw || contRaw != raw, oldLen: len(old)})
 }
 
 func c10CaseQuota(t *testing.T, h *vHarness, r *vRand, cg *c10Cgroup, beDir string) {
